@@ -283,8 +283,15 @@ def rule_FR7(rep, prog):
     def is_offset_zero(ii):
         if ii.op != "icmp" or ii.d["pred"] not in ("eq", "ne"):
             return None
+        from .C13 import linform
+        def is_offset(a):
+            if tuple(a[:2]) == ("a", 2):
+                return True
+            ph = fn.inst(a)
+            # the region offset advanced by the bytes the previous region already consumed (offset, or offset + skip on the skip-applied edge)
+            return ph is not None and ph.op == "phi" and all(linform(fn, v).get(("a", 2)) == 1 and all(c > 0 for c in linform(fn, v).values()) for v, frm in ph.ops)
         for a, b in ((ii.ops[0], ii.ops[1]), (ii.ops[1], ii.ops[0])):
-            if b[0] == "c" and b[1] == 0 and tuple(a[:2]) == ("a", 2):
+            if b[0] == "c" and b[1] == 0 and is_offset(a):
                 return ii.d["pred"] == "eq"
         return None
     brs = [i for i in fn.all_insts() if i.op == "br" and len(i.d.get("succs", [])) == 2]
@@ -311,6 +318,190 @@ def rule_FR7(rep, prog):
                     "dropped (or the data rejected), so the result depends on how the input is fragmented" % t.ops[1][1], sample={"test": t.loc, "edges": edges})
 
 
+def _strip_int(fn, op):
+    i = fn.inst(op)
+    while i is not None and i.op in ("zext", "trunc", "sext"):
+        op = i.ops[0]
+        i = fn.inst(op)
+    return tuple(op[:2])
+
+
+def rule_FR8(rep, prog):
+    from .C13 import linform
+    rid = rep.rule("C20-FR8", "fragmentation independence of read-ahead: when a region's first bytes were already consumed by the previous region (the buffer pointer is "
+                   "advanced by `skip`), the region's absolute offset is advanced by the same amount, and every _dispatch_data_subrange_map offset is computed from "
+                   "that adjusted offset", floor=2)
+    n = 0
+    for fn in prog.all_functions():
+        if not fn.name.startswith("___dispatch_transform_") or len(fn.params) < 5:
+            continue
+        maps = calls_named(fn, "_dispatch_data_subrange_map")
+        adv = [g for g in fn.all_insts() if g.op == "getelementptr" and root_ptr(fn, g.ops[0]) == ("a", 3) and len(g.ops) == 2 and g.ops[1][0] == "i"
+               and fn.inst(g.ops[1]) is not None and fn.inst(g.ops[1]).op == "load"]
+        if not maps or not adv:
+            continue
+        rep.saw(fn)
+        V = tuple(adv[0].ops[1][:2])
+        B = adv[0].block
+        # phis that merge (offset + skip) from the block where the skip is applied
+        good = set()
+        for ph in fn.all_insts():
+            if ph.op != "phi":
+                continue
+            for v, frm in ph.ops:
+                if frm == B.id:
+                    lf = linform(fn, v)
+                    if lf == {("a", 2): 1, V: 1}:
+                        good.add(("i", ph.id))
+        for m in maps:
+            n += 1
+            lf = linform(fn, m.ops[2])
+            ok = any(a in good and c == 1 for a, c in lf.items()) and ("a", 2) not in lf
+            rep.require(rid, ok, m.loc, fn.name, "read-ahead-offset-ignores-skip:%s" % fn.name,
+                        "%s maps read-ahead bytes at an absolute offset computed from the region offset WITHOUT the bytes skipped at the start of this region: when a "
+                        "region both starts inside a character (previous read-ahead) and ends inside one, the second read-ahead fetches the wrong bytes and the "
+                        "result depends on how the data is fragmented" % fn.name, sample={"fn": fn.name, "map": m.loc, "offset": str({str(k_): v for k_, v in lf.items()})})
+    if n < 2:
+        rep.unknown(rid, "fewer than 2 read-ahead mappings found in skip-carrying transforms (%d)" % n)
+
+
+def rule_BD8(rep, prog):
+    rid = rep.rule("C20-BD8", "UTF-16 decoding reads a code unit directly from the region buffer only at an index that was tested NOT to be the split last unit of an "
+                   "odd-sized region (index == max-1 && max > size/2); the split unit is fetched through _dispatch_data_subrange_map", floor=2)
+    fn = prog.fn("___dispatch_transform_from_utf16_block_invoke")
+    rep.saw(fn)
+    n = 0
+    for l in fn.all_insts():
+        if l.op != "load" or l.d.get("ty") != "i16":
+            continue
+        g = fn.inst(l.ops[0])
+        if g is None or g.op != "getelementptr":
+            continue
+        base = fn.inst(g.ops[0])
+        roots = set()
+        if base is not None and base.op == "phi":
+            roots = {root_ptr(fn, v) for v, frm in base.ops}
+            roots |= {root_ptr(fn, fn.inst(r).ops[0]) for r in list(roots) if r[0] == "i" and fn.inst(r) is not None and fn.inst(r).op == "getelementptr"}
+        else:
+            roots = {root_ptr(fn, g.ops[0])}
+        if ("a", 3) not in roots:
+            continue
+        n += 1
+        I = _strip_int(fn, g.ops[-1])
+        cx = paths.dom_ctx(fn, l)
+        ok = False
+        for cid, tv in cx.truth.items():
+            c = fn.insts[cid]
+            if tv is not False or c.op not in ("select", "and"):
+                continue
+            for o in c.ops:
+                e = fn.inst(o)
+                if e is not None and e.op == "icmp" and e.d["pred"] == "eq" and I in (_strip_int(fn, e.ops[0]), _strip_int(fn, e.ops[1])):
+                    ok = True
+        rep.require(rid, ok, l.loc, fn.name, "direct-read-of-split-unit",
+                    "___dispatch_transform_from_utf16_block_invoke reads a UTF-16 unit straight from the region buffer at an index that was not tested against the "
+                    "split last unit of an odd-sized region: a low surrogate whose two bytes straddle a region boundary is read one byte past the region and "
+                    "well-formed input is rejected (or decoded differently) depending on fragmentation", sample={"load": l.loc})
+    if n < 2:
+        rep.unknown(rid, "fewer than 2 direct code-unit reads found (%d)" % n)
+
+
+def rule_SW9(rep, prog):
+    rid = rep.rule("C20-SW9", "byte order: every 16-bit code unit the UTF-16 decoder reads (from the region buffer or through a read-ahead mapping) goes through the "
+                   "byte-order swap before it is classified", floor=4)
+    fn = prog.fn("___dispatch_transform_from_utf16_block_invoke")
+    rep.saw(fn)
+    n = 0
+    for l in fn.all_insts():
+        if l.op != "load" or l.d.get("ty") != "i16":
+            continue
+        n += 1
+        swapped = False
+        for u in fn.users(l):
+            if u.op == "call" and (u.callee or "").startswith("llvm.bswap"):
+                swapped = True
+            if u.op in ("zext", "sext"):
+                for u2 in fn.users(u):
+                    if u2.op in ("ashr", "lshr", "shl") and u2.ops[1][0] == "c" and u2.ops[1][1] == 8:
+                        swapped = True
+        rep.require(rid, swapped, l.loc, fn.name, "code-unit-not-byte-swapped",
+                    "the UTF-16 decoder uses a code unit read at %s without converting it from the data's byte order: for the non-host byte order a surrogate pair "
+                    "split between two regions decodes to a different character or is rejected, although the unfragmented data decodes fine" % l.loc,
+                    sample={"load": l.loc})
+    if n < 4:
+        rep.unknown(rid, "fewer than 4 code-unit reads found (%d)" % n)
+
+
+def rule_TB9(rep, prog):
+    rid = rep.rule("C20-TB9", "UTF-8 length ladder of the UTF-16 decoder: N output bytes are reserved exactly under wch < 0x80 (1), < 0x800 (2), < 0x10000 (3); the "
+                   "emitted sequence for every code point is the well-formed one the UTF-8 reader accepts", floor=3)
+    fn = prog.fn("___dispatch_transform_from_utf16_block_invoke")
+    rep.saw(fn)
+    want_t = {1: 0x80, 2: 0x800, 3: 0x10000}
+    seen = 0
+    for c in calls_named(fn, "_dispatch_transform_buffer_new"):
+        if len(c.ops) < 3 or c.ops[1][0] != "c" or c.ops[1][1] not in want_t or not (c.ops[2][0] == "i"):
+            continue
+        N = c.ops[1][1]
+        seen += 1
+        cx = paths.dom_ctx(fn, c)
+        bound = None
+        for cid, tv in cx.truth.items():
+            t = fn.insts[cid]
+            if t.op == "icmp" and t.ops[1][0] == "c" and tv:
+                if t.d["pred"] == "ult":
+                    b = t.ops[1][1]
+                elif t.d["pred"] == "ule":
+                    b = t.ops[1][1] + 1
+                else:
+                    continue
+                bound = b if bound is None else min(bound, b)
+        rep.require(rid, bound == want_t[N], c.loc, fn.name, "utf8-length-boundary:%d" % N,
+                    "the UTF-16 decoder emits a %d-byte UTF-8 sequence for code points below %s (expected below %#x): the code point on the boundary is "
+                    "written as an ill-formed sequence that the inverse transform rejects or mis-reads" % (N, hex(bound) if bound is not None else "?", want_t[N]),
+                    sample={"bytes": N, "below": hex(bound) if bound is not None else None})
+    if seen < 3:
+        rep.unknown(rid, "fewer than 3 rungs of the UTF-8 length ladder found (%d)" % seen)
+
+
+def rule_AI10(rep, prog):
+    from .C13 import linform
+    rid = rep.rule("C20-AI10", "read-ahead accounting of the UTF-8 reader: after mapping an L-byte sequence that starts at index i of a region of `size` bytes, the bytes "
+                   "to skip in the next region grow by exactly L - (size - i)", floor=1)
+    fn = prog.fn("___dispatch_transform_to_utf16_block_invoke")
+    rep.saw(fn)
+    maps = calls_named(fn, "_dispatch_data_subrange_map")
+    if not maps:
+        rep.unknown(rid, "no read-ahead mapping in the UTF-8 reader")
+        return
+    for m in maps:
+        off = linform(fn, m.ops[2])
+        L = _strip_int(fn, m.ops[3])
+        idx = [a for a, c in off.items() if isinstance(a, tuple) and a[0] == "i" and fn.insts[a[1]].op == "phi" and fn.inst_reaches(m, fn.insts[a[1]]) and c == 1]
+        # the store that updates skip after this mapping
+        st = None
+        for s_ in fn.all_insts():
+            if s_.op == "store" and fn.dominates(m, s_):
+                lf = linform(fn, s_.ops[0])
+                olds = [a for a, c in lf.items() if isinstance(a, tuple) and a[0] == "i" and fn.insts[a[1]].op == "load" and
+                        tuple(fn.insts[a[1]].ops[0][:2]) == tuple(s_.ops[1][:2]) and c == 1]
+                if olds:
+                    st = (s_, lf, olds[0])
+                    break
+        if st is None or not idx:
+            rep.unknown(rid, "skip update after the read-ahead mapping at %s not found" % m.loc)
+            continue
+        s_, lf, old = st
+        rest = {a: c for a, c in lf.items() if a != old}
+        Lc = sum(c for a, c in rest.items() if isinstance(a, tuple) and _strip_int(fn, list(a)) == L)
+        ic = sum(c for a, c in rest.items() if a in idx)
+        neg = [c for a, c in rest.items() if c < 0]
+        ok = Lc == 1 and ic == 1 and neg == [-1] and len(rest) == 3
+        rep.require(rid, ok, s_.loc, fn.name, "read-ahead-skip-miscounted",
+                    "the UTF-8 reader adds %s to skip after a read-ahead (expected L - size + i): too many or too few bytes of the next region are skipped and the "
+                    "characters after a sequence split across regions are dropped or re-read" % {str(k_): v for k_, v in rest.items()}, sample={"store": s_.loc})
+
+
 def run(rep, tier="quick", srcdir=None, only=None):
     prog, units = load(UNITS, tier, srcdir)
     rep.units = units
@@ -331,6 +522,16 @@ def run(rep, tier="quick", srcdir=None, only=None):
         rule_BD5(rep, prog)
     if want("C20-TB6"):
         rule_TB6(rep, prog)
+    if want("C20-FR8"):
+        rule_FR8(rep, prog)
+    if want("C20-BD8"):
+        rule_BD8(rep, prog)
+    if want("C20-SW9"):
+        rule_SW9(rep, prog)
+    if want("C20-TB9"):
+        rule_TB9(rep, prog)
+    if want("C20-AI10"):
+        rule_AI10(rep, prog)
 
 
 MANIFEST = {
